@@ -258,6 +258,14 @@ func (f *SnapFileWrap) Write(p []byte) (int, error) {
 		// The repository only ever appends to a snapshot being written.
 		f.written = append(f.written, p[:n]...)
 	}
+	// Signature of known finding F3: a chunk that belongs to another snapshot than
+	// the one this file is labelled with.
+	if ctx := f.rec.ctxByTask[f.rec.c.Sim.Cur()]; ctx != nil && ctx.Msg.Kind == KindIS && f.writing {
+		if ctx.Msg.IS.LastIncludedIndex != f.inner.Metadata().LastIncludedIndex {
+			f.rec.setTaint(f.inc.Node, "F3")
+			f.rec.probe("chunk-of-other-snapshot-written")
+		}
+	}
 	if err != nil {
 		f.rec.storageCall(f.inc, "snap.Write", err)
 	}
